@@ -73,6 +73,15 @@ M = [
     ('c04_dv_without_fsync', 'C04', 'a:commit_inner:dv-write→sync_data', 'src/storage/secondary/transaction.rs',
      '''                    DeleteVector::write_all(&mut file, &deletes).await?;
                     file.sync_data().await?;''', '''                    DeleteVector::write_all(&mut file, &deletes).await?;'''),
+    ('c04_column_file_without_fsync', 'C04', 'b:RowsetWriter::flush:write_all→sync_data(file)', 'src/storage/secondary/rowset/rowset_writer.rs',
+     '''                let file = writer.into_inner();
+                file.sync_data().await?;''', '''                let _file = writer.into_inner();'''),
+    ('c04_directory_not_synced', 'C04', 'c:RowsetWriter::flush:write→sync_data(directory)', 'src/storage/secondary/rowset/rowset_writer.rs',
+     '''        Self::sync_dir(&self.io_backend, &self.directory).await?;
+''', '''        if rowset.size == 0 {
+            Self::sync_dir(&self.io_backend, &self.directory).await?;
+        }
+'''),
     ('c04_torn_tail_again', 'C04', 'Manifest::replay·stream-item-error', 'src/storage/secondary/manifest.rs',
      '''            let value = match value {
                 Ok(value) => value,
